@@ -130,7 +130,7 @@ pub fn tag_history(m: &mut Mon, prop_nan: bool, ends: &[f64], pw: &Piecewise<Tag
 }
 
 /// Same with a real piece type: bits must equal Piecewise::evaluate and the selected piece.
-pub fn real_history<T: Nums + Evaluate>(m: &mut Mon, r: &mut Rng, positive: bool, allow_nan: bool, maxlen: usize) {
+pub fn real_history<T: Nums + Evaluate + Sync>(m: &mut Mon, r: &mut Rng, positive: bool, allow_nan: bool, maxlen: usize) {
     let n = match r.below(10) {
         0 => 1,
         1..=6 => r.usize(2, 8),
@@ -150,7 +150,7 @@ pub fn real_history<T: Nums + Evaluate>(m: &mut Mon, r: &mut Rng, positive: bool
 }
 
 /// history check on a given function with real pieces (also used for functions the library itself built)
-pub fn real_history_on<T: Nums + Evaluate>(m: &mut Mon, r: &mut Rng, pw: &Piecewise<T>, allow_nan: bool, maxlen: usize) {
+pub fn real_history_on<T: Nums + Evaluate + Sync>(m: &mut Mon, r: &mut Rng, pw: &Piecewise<T>, allow_nan: bool, maxlen: usize) {
     let ends: Vec<f64> = pw_ends(pw);
     let pol = r.pick(&POLICIES);
     let len = r.usize(1, maxlen);
@@ -165,6 +165,43 @@ pub fn real_history_on<T: Nums + Evaluate>(m: &mut Mon, r: &mut Rng, pw: &Piecew
     h = hash_bits(h, hist.iter().map(|e| e.to_bits()));
     m.case(mix2(h, T::LEN as u64));
     m.count(&format!("histories_real:{}", T::NAME));
+    if r.below(8) == 0 && hist.len() <= 64 {
+        // the answer to a query must not depend on what was evaluated before it -- anywhere on the thread: replay
+        // the history on a brand-new thread and compare with direct evaluation done here
+        m.count("histories_replayed_on_fresh_thread");
+        let direct: Vec<Result<f64, String>> = hist.iter().map(|x| guard(|| pw.evaluate(*x))).collect();
+        let got: Result<Vec<f64>, String> = guard(|| {
+            std::thread::scope(|sc| {
+                sc.spawn(|| {
+                    let mut ev = PiecewiseEvaluator::new(&pw.segments);
+                    hist.iter().map(|x| ev.evaluate(*x)).collect::<Vec<f64>>()
+                })
+                .join()
+                .map_err(|_| ())
+                .expect("library panic on a fresh thread")
+            })
+        });
+        match got {
+            Err(p) => m.panic("real evaluator panic (fresh thread)", &p, || json!({"type": T::NAME, "ends": hxs(&ends)})),
+            Ok(vs) => {
+                let mut seen_nan = false;
+                for (k, (v, d)) in vs.iter().zip(direct.iter()).enumerate() {
+                    m.eval();
+                    if hist[k].is_nan() {
+                        seen_nan = true;
+                        continue;
+                    }
+                    if let Ok(dv) = d {
+                        if !bits_eq(*v, *dv) {
+                            let sig = if seen_nan { "real evaluator answer-after-NaN differs from direct evaluation" } else { "real evaluator on a fresh thread differs from direct evaluation made earlier" };
+                            m.violation(sig, || json!({"type": T::NAME, "ends": hxs(&ends), "history": hist_json(&hist[..=k]), "k": k, "observed": hx(*v), "direct": hx(*dv)}));
+                            break;
+                        }
+                    }
+                }
+            }
+        }
+    }
     let mut ev = PiecewiseEvaluator::new(&pw.segments);
     let mut seen_nan = false;
     for (k, &x) in hist.iter().enumerate() {
@@ -344,6 +381,7 @@ pub const FLOORS: &[&str] = &[
     "exploration_states",
     "exploration_transitions",
     "pipeline_functions",
+    "histories_replayed_on_fresh_thread",
 ];
 
 pub fn workload_a(a: &Args, m: &mut Mon, r: &mut Rng, nhist: u64, nan: bool, maxlen_thorough: usize) {
